@@ -38,7 +38,8 @@ Domain (checked by the driver, stated by `ASSUMPTIONS` of harness/props/c12.py):
 * no two watcher names of one file are equal up to letter case (`Arbiter.get_watcher` looks names
   up in lower case; with such a pair it returns the wrong watcher, in an order that depends on the
   hash seed) — then `get_watcher(n)` is the watcher called `n`;
-* `singleton`, `on_demand`, hooks and streams are off; `max_age` does not expire during a reload.
+* `singleton`, `on_demand` and hooks are off; `max_age` does not expire during a reload; stream options
+  (`stdout_stream.*` / `stderr_stream.*` lines) are part of the comparable dict like any other key.
 -/
 namespace Circus.Reload
 open Circus.Config (Str Dict dget dset lowerS strip strLt isDigit)
@@ -225,6 +226,50 @@ def reload (st : State) (new : List Cfg) : State :=
   -- add watchers
   let a := addLoop (new.filter (fun c => decide (c.name ∈ addedWn))) r.2.2
   { ws := ws2 ++ a.1, next := a.2 }
+
+/-! ### the arbiter part: a changed `[circus]` section restarts everything
+
+`reload_from_config` begins with `if self.get_arbiter_config(new_cfg) != self._cfg: yield self._restart(…); return`.
+The `reloadconfig` command passes `inside_circusd=False`, so `_restart` is `_stop_watchers()` followed by
+`_start_watchers()` on the watchers the daemon already has: nothing of the new file is applied, and
+`Arbiter._cfg` (set by `load_from_config` only) keeps the value of the daemon start — every later
+reload of a file whose `[circus]` section still differs from the *first* one restarts everything again. -/
+
+/-- `Arbiter._stop_watchers()`: `yield w._stop()` for every watcher (a stopped one stays as it is) -/
+def stopAll (ws : List W) : List W := ws.map (fun w => { w with active := false, pids := [] })
+
+/-- `Arbiter._start_watchers()`: `if watcher.autostart: yield watcher._start()` for every watcher
+    (the code goes by priority; the order only decides who gets the smaller fresh pids) -/
+def startLoop : List W → Nat → List W × Nat
+  | [], nx => ([], nx)
+  | w :: r, nx =>
+    let s := startW w nx
+    let t := startLoop r s.2
+    (s.1 :: t.1, t.2)
+
+/-- `Arbiter._restart(inside_circusd=False)` -/
+def restartAll (st : State) : State :=
+  let a := startLoop (stopAll st.ws) st.next
+  { ws := a.1, next := a.2 }
+
+/-- the daemon with the arbiter configuration it was started with (`Arbiter._cfg`, as a canonical text) -/
+structure AState where
+  arb : Str
+  st : State
+  deriving DecidableEq, Repr
+
+/-- `Arbiter.reload_from_config` with its arbiter part: one version = (canonical text of the arbiter
+    configuration of the file, comparable dicts of its watchers) -/
+def reloadA (a : AState) (v : Str × List Cfg) : AState :=
+  if v.1 ≠ a.arb then { a with st := restartAll a.st }
+  else { a with st := reload a.st v.2 }
+
+def runA (a : AState) (versions : List (Str × List Cfg)) : AState := versions.foldl reloadA a
+
+/-- the states after the start and after every reload -/
+def traceA (a : AState) : List (Str × List Cfg) → List State
+  | [] => [a.st]
+  | v :: r => a.st :: traceA (reloadA a v) r
 
 /-- a fresh daemon start on a file: `Arbiter.load_from_config`, `Arbiter.start_watchers` -/
 def freshStart (cfgs : List Cfg) (nx : Nat) : State :=
